@@ -448,7 +448,7 @@ def bundles(tier):
            Tag('beltHMAC', 'StepA', 'beltHMAC', 40 if q else 70, True, key=D(70, 0))]
     for l in ((128,) if q else (32, 128, 192, 256)):
         r = cat_misc.rate(l)
-        bs.append(Tag('bashHash', 'StepH', 'bashHash', (r + 2) if q else (2 * r + 1), False, level=l))
+        bs.append(Tag('bashHash', 'StepH', 'bashHash', 2 * r + 1, False, level=l))
     for pre in ('beltDWP', 'beltCHE'):
         bs += [Aead(pre, 17 if q else 33, 18 if q else 34), Aead(pre, 9 if q else 17, 17 if q else 33, unwrap=True)]
     bs += [BrngCTR(70 if q else 97, bytes(32)), BrngCTR(70 if q else 97, b'\xff' * 32), BrngHMAC(70 if q else 97, 16), BrngHMAC(66, 64), BrngHMAC(66, 65), BrngHMAC(40, 0)]
@@ -457,7 +457,7 @@ def bundles(tier):
     for cmd in ('Absorb', 'Squeeze', 'Encr', 'Decr'):
         for (l, d) in (((128, 1),) if q else ((128, 1), (192, 2), (256, 1))):
             rr = 192 - l * (2 + d) // 16
-            bs.append(PrgCmd(cmd, l, d, (rr + 2) if q else (2 * rr + 1)))
+            bs.append(PrgCmd(cmd, l, d, 2 * rr + 1))       # two full blocks + 1: a fragment may END exactly on the second block boundary
     return bs
 
 _bundles = None
